@@ -220,6 +220,10 @@ def check(chk, repo):
     # a query's identity (its row of a pre-computed matrix) is what the caller says it is, never its batch position
     from .c10 import check_constructor_forwarding, check_model_forwarding, check_row_ids
     check_row_ids(chk, rep, repo, only={"Subgraph._build"}, floor=1)
+    # ... and the distance read for (training node, query) is the entry of THEIR identifiers (never of a batch position)
+    from .c10 import check_walk_selectors
+    for cls in ("SupervisedOPF", "KNNSupervisedOPF", "UnsupervisedOPF"):
+        check_walk_selectors(rep, repo, "model", cls, "predict", set(), pre="WEIGHT:")
     chk.floor("query-graph constructions in predict", check_model_forwarding(rep, repo, ("predict",)), 3)
     check_constructor_forwarding(rep, repo)
     chk.assumptions += ["effect summaries resolve callees by method name (over-approximation)",
